@@ -17,6 +17,7 @@ import (
 	"math"
 	"math/big"
 	"os"
+	"regexp"
 	"runtime"
 	"sort"
 	"strconv"
@@ -274,6 +275,18 @@ func attribute(n interp.VerifOpNode) (c closure, ok bool) {
 	case cmpFns[g]:
 		k0, k1 := classOfKindName(n.C0Kind), classOfKindName(n.C1Kind)
 		cls := "other"
+		if n.Linked && (g == "equal" || g == "notEqual") {
+			// `if c0.typ.cat == linkedT || c1.typ.cat == linkedT`: comparison through interface{} values, first in the function
+			v := variantOf(n)
+			sub := "none"
+			if v != "iface" {
+				sub = "val"
+				if n.HasFnext {
+					sub = "br"
+				}
+			}
+			return closure{g, "linked", v, sub}, true
+		}
 		switch {
 		case k0 == "interface" || k1 == "interface":
 			sub := "val"
@@ -387,7 +400,18 @@ func canon(s *site, rest string, present bool) string {
 	txt := rest
 	if s.Ctx == "iface" || s.Ctx == "ifacereuse" {
 		i := strings.IndexByte(rest, ':')
-		if i < 0 || rest[:i] != rk.Name {
+		// a defined type prints as <package>.<Name> in compiled Go (the batch oracle renames package main) and as its
+		// underlying type in the interpreter (class defined-type-dynamic-type)
+		tn := ""
+		if i >= 0 {
+			tn = rest[:i]
+			if rk.Under != "" {
+				if j := strings.LastIndexByte(tn, '.'); j >= 0 {
+					tn = tn[j+1:]
+				}
+			}
+		}
+		if i < 0 || tn != rk.Name && tn != rk.Under {
 			return "type:" + rest
 		}
 		txt = rest[i+1:]
@@ -462,6 +486,9 @@ func classOf(s *site, x, y string) string {
 	}
 	if o.Group == "shift" && s.Form == "cl" && s.CKind != "typed" && s.Ctx == "cond" {
 		return "shift-untyped-left-in-comparison"
+	}
+	if (s.Ctx == "iface" || s.Ctx == "ifacereuse") && s.resultKind().Under != "" {
+		return "defined-type-dynamic-type"
 	}
 	if s.Op == "lnot" && s.Ctx == "iface" {
 		return "lnot-iface-dest"
@@ -551,6 +578,8 @@ func implDefined(s *site, x string) bool {
 	lo, hi := s.kind2().rangeOf()
 	return t.Cmp(lo) < 0 || t.Cmp(hi) > 0
 }
+
+var batchPkgRe = regexp.MustCompile(`^p\d{5}\.`)
 
 func isZeroConst(c string) bool {
 	switch strings.Trim(c, "()") {
@@ -664,7 +693,7 @@ func keyOf(k kindT, expr string) string {
 
 func main() {
 	run := common.NewRun("C02")
-	run.Res.Rule = "cases = evaluations of one operator expression (operator x operand kind(s) x operand form {variable, literal, named typed constant, named untyped constant; integer constants also spelled in hex, as 123.0, 123e0 or as a rune} x result context {assign, define, op-assign, return, branch condition, interface destination, call argument, and the destinations global / slice element / struct field / map entry / pointer}) on one tuple of boundary values (min, max, -1, 0, 1, 2^k, 2^k+-1; NaN, +-Inf, -0, subnormals, rounding boundaries for floats); every variable x variable site of the product is generated on the tier's value tables, constant-form sites (one per constant value) are sampled by seed (quick 2%, thorough 50%; 30% of that in the additional destination contexts); every integer evaluation is also computed by the Lean model of the closure that ran (regenerated table entry) and by the Lean Go specification; non-trivial = not both operands in {0, 1} (a constant operand always counts); distinct = distinct (operator, kinds, form, constant spelling, context, operand values)"
+	run.Res.Rule = "cases = evaluations of one operator expression (operator x operand kind(s) x operand form {variable, literal, named typed constant, named untyped constant; integer constants also spelled in hex, as 123.0, 123e0 or as a rune} x result context {assign, define, op-assign, return, branch condition, interface destination, call argument, and the destinations global / slice element / struct field / map entry / pointer}) on one tuple of boundary values (min, max, -1, 0, 1, 2^k, 2^k+-1; NaN, +-Inf, -0, subnormals, rounding boundaries for floats); every variable x variable site of the product is generated on the tier's value tables, constant-form sites (one per constant value) are sampled by seed (quick 2%, thorough 40%; 30% of that in the additional destination contexts); every integer evaluation is also computed by the Lean model of the closure that ran (regenerated table entry) and by the Lean Go specification; non-trivial = not both operands in {0, 1} (a constant operand always counts); distinct = distinct (operator, kinds, form, constant spelling, context, operand values)"
 	defer run.Finish()
 	t0 := time.Now()
 
@@ -693,7 +722,7 @@ func main() {
 	} else {
 		g := genOpts{level: 0, constFrac: 0.02, negCounts: true}
 		if run.Thorough() {
-			g = genOpts{level: 1, constFrac: 0.5, negCounts: true}
+			g = genOpts{level: 1, constFrac: 0.4, negCounts: true}
 		}
 		sites = generate(run.Rng, g)
 		// development aid: VERIF_C02_ONLY="kind=complex64,op=ne" keeps only matching sites (never set by ./check)
@@ -986,6 +1015,9 @@ func main() {
 			continue
 		}
 		e.im, e.rf = normFloat(s, e.im), normFloat(s, e.rf)
+		if (s.Ctx == "iface" || s.Ctx == "ifacereuse") && s.resultKind().Under != "" {
+			e.rf = batchPkgRe.ReplaceAllString(e.rf, "main.")
+		}
 		im, rf := canon(s, e.im, e.imOK), canon(s, e.rf, e.rfOK)
 		agreeRef := e.imOK == e.rfOK && e.im == e.rf
 		var y, g string
@@ -1097,6 +1129,9 @@ func floatLine(s *site, node interp.VerifOpNode, cl closure, x, y string) string
 	o := s.op()
 	if s.kind().Class != "float" || s.Ctx == "iface" || s.Ctx == "ifacereuse" {
 		return ""
+	}
+	if cl.Variant == "fold" {
+		return "" // a constant expression: Go evaluates it exactly (go/constant arithmetic, C03), not at float precision
 	}
 	switch o.Group {
 	case "arith", "cmp":
